@@ -7,6 +7,6 @@ tmpl = open('/verif/tools/audit_prompt.tmpl').read()
 for pid, p in props.items():
     if only and pid not in only: continue
     wt = f'/tmp/wt-{pid}{suffix}'
-    subprocess.run(['git', '-C', '/repo', 'worktree', 'add', '-q', '--detach', wt, '08cd95d'], check=True)
+    subprocess.run(['git', '-C', '/repo', 'worktree', 'add', '-q', '--detach', wt, 'd22568d'], check=True)
     open(wt + '/PROMPT.txt', 'w').write(tmpl.format(wt=wt, title=p['title'], statement=p['statement'], qtext=p['quantifier']['text'], files=', '.join(p['anchors']['files']), pid=pid))
     print(wt)
